@@ -198,8 +198,26 @@ def rule_batch(ctx) -> None:
     comp = [(n, c) for n in dcfg.nodes for c in node_calls(n) if isinstance(c.func, ast.Name) and c.func.id in _rc]
     picked_vars = {x.targets[0].id for x in walk_no_defs(drv.node) if isinstance(x, ast.Assign) and len(x.targets) == 1 and isinstance(x.targets[0], ast.Name)
                    and isinstance(x.value, ast.Call) and call_tail(x.value) == "_select_independent_batch"}
+    # ... or a working copy of the pick (pending = list(picked)) that the loop consumes
+    for _ in range(2):
+        for x in walk_no_defs(drv.node):
+            if isinstance(x, ast.Assign) and len(x.targets) == 1 and isinstance(x.targets[0], ast.Name) and isinstance(x.value, ast.Call) and dotted(x.value.func) in ("list", "set", "sorted") \
+                    and x.value.args and isinstance(x.value.args[0], ast.Name) and x.value.args[0].id in picked_vars:
+                picked_vars.add(x.targets[0].id)
     ctx.floor("C10.BATCH", "compute call sites", len(comp), 1)
     for n, c in comp:
+        # each picked agent is computed once: a batch that names an agent twice would otherwise compute both of its tasks on one
+        # snapshot - the second overlaps the first one's graphs.  The membership test must be on a collection the loop consumes.
+        consumed = [m for m in dcfg.nodes if any(call_tail(k) in ("remove", "discard", "pop") and isinstance(k.func, ast.Attribute) and src(k.func.value) in picked_vars for k in node_calls(m))] + \
+                   [m for m in dcfg.nodes if any(call_tail(k) == "add" and isinstance(k.func, ast.Attribute) for k in node_calls(m))]
+        heads_d = [h for h in dcfg.nodes if h.kind == "iter"]
+        p_once = dcfg.path([n], lambda z: z in heads_d, avoid=lambda z: z in consumed, edge_ok=no_exc, include_start=False) if n not in consumed else None
+        # the consuming statement may also precede the call in the same iteration
+        dom_cons = any(dcfg.dominates(m, n) and any(dcfg.dominates(h, m) for h in heads_d) for m in consumed)
+        ctx.check(dom_cons or (bool(consumed) and p_once is None), "C10.BATCH", f"{drv.qual}/each-picked-agent-once", drv.loc(c),
+                  "the loop consumes the pick (remove / seen-set) in the iteration that computes the agent: one task per picked agent",
+                  "the compute loop tests membership in the pick but never consumes it: an agent named twice in the batch has both tasks computed on the same snapshot and committed together, "
+                  "although the second overlaps the graphs of the first")
         facts = dcfg.facts(n)
         ok = any((not p) and any(t.endswith(f" not in {pv}") for pv in picked_vars) for t, p in facts) or any(p and any(t.endswith(f" in {pv}") and " not in " not in t for pv in picked_vars) for t, p in facts)
         ctx.check(ok, "C10.BATCH", f"{drv.qual}/compute-only-picked", drv.loc(c), "only picked agents are computed", "an agent outside the independent batch is computed")
@@ -338,18 +356,19 @@ def rule_sib(ctx) -> None:
                   "the gate-off fallback does not run plain sequential turns")
 
 
-COPY_CALLS = {"dict", "copy.copy", "copy.deepcopy", "deepcopy", "_copy.deepcopy", "_copy.copy", "json.loads", "OrderedDict"}
+DEEP_COPY_CALLS = {"copy.deepcopy", "deepcopy", "_copy.deepcopy", "json.loads"}
 
 
 def _is_snapshot(rd, e: ast.AST, at, depth: int = 0) -> bool:
-    """e is a copy taken now (dict(x), {**x}, deepcopy(x), a literal), not the caller's own object"""
-    if isinstance(e, (ast.Dict, ast.DictComp, ast.Constant)):
+    """e is a DEEP copy taken now (deepcopy / json round trip / a literal of constants), not the caller's own object and not
+    a shallow dict(x) / {**x}, whose nested lists and dicts stay aliased ("all per-turn log payload shapes")"""
+    if isinstance(e, ast.Constant):
         return True
+    if isinstance(e, ast.Dict):
+        return all(k is not None and isinstance(v, ast.Constant) for k, v in zip(e.keys, e.values))
     if isinstance(e, ast.Call):
         d = dotted(e.func) or ""
-        if d in COPY_CALLS or d.split(".")[-1] in ("deepcopy", "copy"):
-            return True
-        return False
+        return d in DEEP_COPY_CALLS or d.split(".")[-1] == "deepcopy"
     if isinstance(e, ast.Name) and depth < 3:
         ds = [d for d in rd.reaching(e.id, at) if d.kind != "mutate"]
         return bool(ds) and all(d.kind == "assign" and d.value is not None and _is_snapshot(rd, d.value, d.node, depth + 1) for d in ds)
@@ -408,12 +427,12 @@ def rule_capture_snapshot(ctx) -> None:
                 ok = copies_inside[x.func.attr] or _is_snapshot(rd, x.args[1], at)
                 key = f"{fn.qual}/captured-record-is-a-snapshot"
                 if ok:
-                    ctx.holds("C10.STAGE", key, fn.loc(x), f"the record handed to the capture buffer is a copy taken at the call (`{src(x.args[1])[:40]}`)")
+                    ctx.holds("C10.STAGE", key, fn.loc(x), f"the record handed to the capture buffer is a deep copy taken at the call (`{src(x.args[1])[:40]}`)")
                 elif not callers and mn == LM:
                     ctx.info("C10.STAGE", key, fn.loc(x), f"{fn.name} hands its argument to the buffer uncopied, but nothing in the program calls it")
                 else:
                     ctx.violation("C10.STAGE", key, fn.loc(x),
-                                  f"`{src(x.args[1])[:40]}` - the caller's own dict - is stored in the per-turn capture buffer and serialised only at commit: an update made to that dict "
+                                  f"`{src(x.args[1])[:40]}` - the caller's own dict, or a shallow copy whose nested values stay aliased - is stored in the per-turn capture buffer and serialised only at commit: an update made to it "
                                   "later in the compute phase rewrites a line that the sequential loop has already written, so the batch driver's logs differ from the sequential ones")
     ctx.floor("C10.STAGE", "capture sites (buffer.write on the active mux)", n_sites, 2)
 
